@@ -110,13 +110,16 @@ def values_path(max_digits):
         for ln in lines:
             content += ln + eol
         ident = None
-        w = {"content": SBytes(content)}
+        # another block decoded first in the same process (a decoder must not carry fields from one message to the next)
+        before = b"1-0:31.7.0(001*A)\r\n1-0:1.8.0(000123.456*kWh)\r\n1-0:2.8.0(000000.001*kWh)\r\n0-0:96.13.0(text)\r\n"
+        w = {"content": SBytes(content), "before": SBytes(list(before))}
         ctx.intend(w)
         if ident:
             w["ident"] = SBytes(ident)
         ctx.witness = w
         ctx.nontrivial()
         try:
+            D.decode_p1_readout_content(SBytes(list(before)))
             parsed = D.parse_p1_readout_content(SBytes(content))
             decoded = D.decode_p1_readout_content(SBytes(content))
         except ENGINE_EXC:
